@@ -42,6 +42,8 @@ def alphabet(seed=0):
     ops = [["w"] + w for w in writes]
     ops += [["read"], ["create_patch"], ["commit_patch"], ["discard_patch"], ["close", True], ["close", False]]
     ops += [["open", m, form] for m in ("r", "r+", "a") for form in ("name", "list")]
+    # a proper prefix of the chain (all but the newest container): e.g. a stale view of the record
+    ops += [["open", m, "prefix"] for m in ("r", "r+")]
     ops += [["merge"]]
     return ops
 
@@ -74,6 +76,7 @@ class Life:
         self.committed = {}  # file name -> sha256 at the time it was first seen committed
         self.snapshots = []  # (sorted container names, dump at that commit)
         self.nmerge = 0
+        self.partial_view = False
 
     # -- harness-side knowledge
     def containers(self):
@@ -111,9 +114,15 @@ class Life:
                     return "na"
                 if op[2] == "name":
                     arg = self.path
+                elif op[2] == "prefix":
+                    cs = self.containers()
+                    if len(cs) < 2:
+                        return "na"
+                    arg = [Path(self.dir) / f for f in cs[:-1]]
                 else:
                     arg = [Path(self.dir) / f for f in reversed(self.containers())]
                 self.rec = self.cls(arg, op[1])
+                self.partial_view = op[2] == "prefix"
                 return "ok"
             if rec is None:
                 return "na"
@@ -189,7 +198,7 @@ def monitor(L, hist, op, view_before):
     if conts != L.containers()[: len(conts)]:
         return _viol(L.kind, hist, op, "committed-not-prefix", f"committed containers {conts} are not a prefix of {L.containers()}")
     if conts:
-        if grew:
+        if grew and not (L.rec is not None and L.partial_view):
             # a commit just happened: the committed set on its own must open and show the current view
             expected = ih5lib.dump(L.rec) if L.rec is not None else view_before
             L.snapshots.append((list(conts), expected))
@@ -225,7 +234,7 @@ def run_history(kind, hist, check_all=True):
             L.scan()
             r = None
             conts = [f for f in L.containers() if f in L.committed]
-            if conts and (not L.snapshots or L.snapshots[-1][0] != conts):
+            if conts and (not L.snapshots or L.snapshots[-1][0] != conts) and not (L.rec is not None and L.partial_view):
                 L.snapshots.append((list(conts), ih5lib.dump(L.rec) if L.rec is not None else vb))
     return L, None, status
 
